@@ -107,3 +107,34 @@ def on_face(u_rows):
 
 def near_face(u_rows, eps=1e-12):
     return any(x <= eps or x >= 1.0 - eps for row in u_rows for x in row)
+
+
+def batches(min_batches=2, max_batches=4, max_size=12):
+    """A history of thrown batches for one object; equal sizes are frequent (caches keyed on size)."""
+    return st.integers(1, max_size).flatmap(
+        lambda k: st.lists(st.one_of(points(k, k), points(k, k), points(1, max_size)), min_size=min_batches, max_size=max_batches)
+    )
+
+
+def snapshot_throw(g, s_list=None, with_integral=True):
+    """Every public per-event output of a thrown RegionGeom as bytes (for bit-for-bit comparison)."""
+    out = {}
+    # the per-event arrays the property anchors name as public observation points
+    for name in ("losPathLen", "betaTrSubN", "thetaTrSubV", "phiTrSubV", "costhetaTrSubN", "costhetaNSubV", "costhetaTrSubV", "latS", "longS", "event_mask", "thetaS"):
+        out[name] = np.asarray(getattr(g, name)).tobytes()
+    k = int(np.asarray(g.event_mask).sum())
+    for name in ("betas", "beta_rad", "thetas", "phis", "pathLens", "valid_latS", "valid_longS", "valid_costhetaTrSubN", "valid_costhetaNSubV", "valid_costhetaTrSubV", "valid_elevAngVSubN", "valid_aziAngVSubN"):
+        f = getattr(g, name, None)  # helper accessors: compared when present (a rename is not a violation)
+        if f is not None:
+            out[name + "()"] = np.asarray(f()).tobytes()
+    if s_list is not None and k > 0:
+        s = np.array([s_list[i % len(s_list)] for i in range(k)], dtype=np.float64)
+        la, lo = g.find_lat_long_along_traj(s)
+        out["along(s)"] = np.asarray(la).tobytes() + np.asarray(lo).tobytes()
+        la, lo = g.find_lat_long_along_traj(np.zeros(k))
+        out["along(0)"] = np.asarray(la).tobytes() + np.asarray(lo).tobytes()
+    if with_integral:
+        trig = np.linspace(0.0, 1.0, k) if k else np.ones(0)
+        r = g.mcintegral(trig, np.full(k, -1.0), np.full(k, 0.5), 0.25, 1.0, 1.0)
+        out["mcintegral"] = np.array([float(x) for x in r], dtype=np.float64).tobytes()
+    return out
